@@ -80,6 +80,10 @@ void ControlFlowExecutor::execute_while_statement(const ASTNode *node) {
     } catch (const BreakException &e) {
         // break文でループ脱出
         debug_msg(DebugMsgId::INTERPRETER_WHILE_BREAK, "");
+    } catch (const ReturnException &) {
+        // ループ内からのreturn: ループのdeferスコープを残さない
+        interpreter_->pop_defer_scope();
+        throw;
     }
 
     // whileループのdeferスコープを終了（deferを実行）
@@ -194,6 +198,13 @@ void ControlFlowExecutor::execute_for_statement(const ASTNode *node) {
     } catch (const BreakException &e) {
         // break文でループ脱出
         debug_msg(DebugMsgId::INTERPRETER_WHILE_BREAK);
+    } catch (const ReturnException &) {
+        // ループ内からのreturn: ループのdeferスコープを残さない
+        if (init_var_declared && !init_var_name.empty()) {
+            interpreter_->remove_variable_from_current_scope(init_var_name);
+        }
+        interpreter_->pop_defer_scope();
+        throw;
     }
 
     // v0.13.0 Phase 2.0 FIX: init式で宣言された変数を削除
